@@ -546,6 +546,12 @@ def corpus(tier):
     for a in mixed:
         add([part("field", "a", a), part("file", "f", a, filename="m")])
         add([part("file", "f", a, filename="m"), part("field", "a", a)], preamble=b"pre", epilogue=b"epi")
+    # text fields whose value has multi-byte UTF-8 sequences (and a broken one): the form parser decodes a field once,
+    # from all of its bytes -- a chunk boundary inside a character must not change the text (seed C01-4)
+    u1 = "na\u00efve caf\u00e9 \u2013 \u65e5\u672c\u8a9e \U0001f600 end".encode()
+    add([part("field", "a", u1), part("field", "b", "\u00e9".encode() * 5), part("file", "f", u1, filename="u.txt")], tag="utf8")
+    add([part("field", "a", b"\xe2\x82"), part("field", "b", b"x\xf0\x9f\x98"), part("field", "c", "\u20ac".encode() + b"\xac")], tag="utf8")
+    add([part("field", "a", u1, ctype="text/plain; charset=utf-8")], boundary=LONG_BOUNDARY, tag="utf8")
     # binary payload
     allbytes = bytes(range(256))
     add([part("file", "f", allbytes, filename="bin", ctype="application/octet-stream")])
